@@ -83,7 +83,7 @@ def instantiate(vm, mir, prog, holes):
 ERRCLS = ['EnvironmentError', 'ValError', 'WriteValError', 'ExecError', 'ProduceValError']
 
 
-def run_both(vm, mir, prog, stdin=(), out_fail_at=None, in_fail_at=None, describe=None, max_iter=8):
+def run_both(vm, mir, prog, stdin=(), out_fail_at=None, in_fail_at=None, describe=None, max_iter=8, real_lines=None):
     """returns list of findings.  stdin: [(z3 String term without terminator, terminated: bool)]"""
     out = []
     def bad(role, detail, prop=None):
@@ -92,7 +92,7 @@ def run_both(vm, mir, prog, stdin=(), out_fail_at=None, in_fail_at=None, describ
             v = vm.must_hold(prop, role); m = v.model if v is not None else None
         if m is None: return
         out.append(finding('violation', role, detail, describe(m) if describe else None, vm.notes))
-    lines = [SymStr(z3.Concat(t, zs('\n')) if term else t) for t, term in stdin]
+    lines = real_lines if real_lines is not None else [SymStr(z3.Concat(t, zs('\n')) if term else t) for t, term in stdin]
     res, odata, idata = exec_in_vm(vm, mir, prog, lines, out_fail_at, in_fail_at)
     res = conc(vm, res)
     ri = RefInterp(vm, mir, stdin, out_fail_at, in_fail_at, max_iter=max_iter)
